@@ -199,6 +199,43 @@ func init() {
 		"internal/reflectlite.TypeOf": func(ex *Exec, fr *frame, args []Val) Val {
 			return Iface{T: opaqueType, V: &Opaque{Kind: "rtype"}}
 		},
+		"(*sync.Map).Load": func(ex *Exec, fr *frame, args []Val) Val {
+			m := ex.syncMap(args[0])
+			v, ok := ex.mapLookup(m, args[1])
+			if v == nil {
+				v = Iface{}
+			}
+			return Tuple{v, ok}
+		},
+		"(*sync.Map).Store": func(ex *Exec, fr *frame, args []Val) Val {
+			ex.noteSharedWrite(args[0], "sync.Map.Store")
+			ex.mapUpdate(ex.syncMap(args[0]), args[1], args[2])
+			return nil
+		},
+		"(*sync.Map).LoadOrStore": func(ex *Exec, fr *frame, args []Val) Val {
+			m := ex.syncMap(args[0])
+			v, ok := ex.mapLookup(m, args[1])
+			if ex.branch(ok) {
+				return Tuple{v, True}
+			}
+			ex.noteSharedWrite(args[0], "sync.Map.LoadOrStore")
+			ex.mapUpdate(m, args[1], args[2])
+			return Tuple{args[2], False}
+		},
+		"(*sync.Map).Delete": func(ex *Exec, fr *frame, args []Val) Val {
+			ex.noteSharedWrite(args[0], "sync.Map.Delete")
+			ex.mapDelete(ex.syncMap(args[0]), args[1])
+			return nil
+		},
+		"(*sync.Map).Range": func(ex *Exec, fr *frame, args []Val) Val {
+			m := ex.syncMap(args[0])
+			for _, e := range append([]mapEntry(nil), m.Entries...) {
+				if !ex.branch(ex.call(fr, args[1], []Val{e.K, e.V}).(*Term)) {
+					break
+				}
+			}
+			return nil
+		},
 		"(*sync.Pool).Get": func(ex *Exec, fr *frame, args []Val) Val {
 			p := (*args[0].(*Val)).(StructV)
 			nf := p[len(p)-1] // the New field
@@ -937,4 +974,31 @@ func (eng *Engine) opaqueMethod(recv Iface, name string) Intrinsic {
 		return func(ex *Exec, fr *frame, args []Val) Val { return Iface{T: opaqueType, V: args[0]} }
 	}
 	return nil
+}
+
+// syncMap returns the map backing a sync.Map object (kept in a side table keyed by the object's cell).
+func (ex *Exec) syncMap(v Val) *MapV {
+	p, ok := v.(*Val)
+	if !ok || p == nil {
+		ex.targetPanic("runtime error: invalid memory address or nil pointer dereference")
+	}
+	if ex.syncMaps == nil {
+		ex.syncMaps = map[*Val]*MapV{}
+	}
+	m := ex.syncMaps[p]
+	if m == nil {
+		m = &MapV{}
+		ex.syncMaps[p] = m
+	}
+	return m
+}
+
+// noteSharedWrite records a write to process-wide state: a sync.Map that is a package-level variable.
+func (ex *Exec) noteSharedWrite(v Val, what string) {
+	p, _ := v.(*Val)
+	for g, cell := range ex.globals {
+		if cell == p {
+			ex.sharedWrites = append(ex.sharedWrites, what+" on package-level "+g.String()+" at "+ex.site(ex.cur))
+		}
+	}
 }
